@@ -41,6 +41,9 @@ type strEval struct {
 	depth int
 	// legacy variants of package-level string variables: var obj -> extra values
 	varVariants map[types.Object][]string
+	// applyFormatAll: argument expression -> the one row value it stands for in the current combination
+	pinInt map[ast.Expr]int64
+	pinStr map[ast.Expr]string
 }
 
 func newStrEval(p *Program, pk *packages.Package) *strEval {
@@ -117,6 +120,8 @@ type strEnv map[types.Object]ast.Expr // parameter -> argument expression (evalu
 type envFrame struct {
 	env   strEnv
 	outer *envFrame
+	// string-valued locals of the function being summarised (`style := vx.cursorStyle()`), evaluated in order
+	locals map[types.Object][]string
 }
 
 // eval returns the possible string values of e (with unresolved verbs left in place).
@@ -129,9 +134,24 @@ func (se *strEval) eval(e ast.Expr, fr *envFrame) ([]string, bool) {
 	case *ast.Ident:
 		obj := se.info.ObjectOf(t)
 		if fr != nil {
+			if vals, ok := fr.locals[obj]; ok {
+				return append([]string{}, vals...), true
+			}
 			if arg, ok := fr.env[obj]; ok {
 				return se.eval(arg, fr.outer)
 			}
+		}
+		// the value variable of a range over a read-only package-level table: one value per row
+		if rows := se.tableRows(t); rows != nil {
+			var out []string
+			for _, r := range rows {
+				vals, ok := se.eval(r, fr)
+				if !ok {
+					return nil, false
+				}
+				out = appendUniq(out, vals...)
+			}
+			return out, true
 		}
 		if v, ok := obj.(*types.Var); ok && v.Parent() == se.pk.Types.Scope() {
 			base, ok := se.varInit(v)
@@ -139,6 +159,20 @@ func (se *strEval) eval(e ast.Expr, fr *envFrame) ([]string, bool) {
 				return nil, false
 			}
 			return append(append([]string{}, base...), se.varVariants[v]...), true
+		}
+		return nil, false
+	case *ast.SelectorExpr:
+		// a field of the row variable of a range over a read-only table of structs
+		if fs := se.tableRowField(t); fs != nil {
+			var out []string
+			for _, r := range fs {
+				vals, ok := se.eval(r, fr)
+				if !ok {
+					return nil, false
+				}
+				out = appendUniq(out, vals...)
+			}
+			return out, true
 		}
 		return nil, false
 	case *ast.BinaryExpr:
@@ -187,7 +221,7 @@ func (se *strEval) eval(e ast.Expr, fr *envFrame) ([]string, bool) {
 			}
 			var out []string
 			for _, f := range fmts {
-				out = append(out, se.applyFormat(f, t.Args[1:], t.Ellipsis.IsValid(), fr))
+				out = append(out, se.applyFormatAll(f, t.Args[1:], t.Ellipsis.IsValid(), fr)...)
 			}
 			return out, true
 		case "bytes.Buffer.String", "strings.Builder.String", "bytes.Buffer.Bytes":
@@ -243,7 +277,7 @@ func (se *strEval) evalBody(fi *FuncInfo, fr *envFrame, call *ast.CallExpr, vari
 					}
 					var out []string
 					for _, f := range fmts {
-						out = append(out, callerSE.applyFormat(f, rest, false, callerFr))
+						out = append(out, callerSE.applyFormatAll(f, rest, false, callerFr)...)
 					}
 					return out, true
 				}
@@ -251,16 +285,29 @@ func (se *strEval) evalBody(fi *FuncInfo, fr *envFrame, call *ast.CallExpr, vari
 			return se.eval(rs.Results[0], fr)
 		}
 	}
-	// straight-line builder
+	// straight-line builder, with string-valued intermediates (`style := vx.cursorStyle()` ... `return style + x`)
 	var builder types.Object
 	acc := []string{""}
+	if fr != nil && fr.locals == nil {
+		fr.locals = map[types.Object][]string{}
+	}
 	for _, s := range body {
 		switch st := s.(type) {
 		case *ast.AssignStmt:
-			if len(st.Lhs) == 1 && st.Tok == token.DEFINE {
-				if id, ok := st.Lhs[0].(*ast.Ident); ok && builder == nil {
-					builder = se.info.Defs[id]
-					continue
+			if len(st.Lhs) == 1 && len(st.Rhs) == 1 && st.Tok == token.DEFINE {
+				if id, ok := st.Lhs[0].(*ast.Ident); ok {
+					if bt, isB := se.info.TypeOf(id).Underlying().(*types.Basic); isB && bt.Info()&types.IsString != 0 && fr != nil {
+						vals, ok := se.eval(st.Rhs[0], fr)
+						if !ok {
+							return nil, false
+						}
+						fr.locals[se.info.Defs[id]] = vals
+						continue
+					}
+					if builder == nil {
+						builder = se.info.Defs[id]
+						continue
+					}
 				}
 			}
 			return nil, false
@@ -286,10 +333,13 @@ func (se *strEval) evalBody(fi *FuncInfo, fr *envFrame, call *ast.CallExpr, vari
 			acc = next
 		case *ast.ReturnStmt:
 			if len(st.Results) == 1 {
-				if c2, ok := st.Results[0].(*ast.CallExpr); ok {
+				if c2, ok := st.Results[0].(*ast.CallExpr); ok && builder != nil {
 					if sel, ok := c2.Fun.(*ast.SelectorExpr); ok && rootObj(se.info, sel.X) == builder && sel.Sel.Name == "String" {
 						return acc, true
 					}
+				}
+				if builder == nil {
+					return se.eval(st.Results[0], fr)
 				}
 			}
 			return nil, false
@@ -347,8 +397,231 @@ func (se *strEval) applyFormat(format string, args []ast.Expr, ellipsis bool, fr
 	return sb.String()
 }
 
+// applyFormatAll is applyFormat for arguments that may be the row variable of a constant table: one template per
+// combination of row values.
+func (se *strEval) applyFormatAll(format string, args []ast.Expr, ellipsis bool, fr *envFrame) []string {
+	if ellipsis {
+		return []string{se.applyFormat(format, args, ellipsis, fr)}
+	}
+	// argument positions with several constant values
+	type multi struct {
+		idx  int
+		ints []int64
+		strs []string
+	}
+	var ms []multi
+	for i, a := range args {
+		if _, single := se.constIntArg(a, fr); single {
+			continue
+		}
+		if _, single := se.constStrArg(a, fr); single {
+			continue
+		}
+		if iv, ok := se.intArgVals(a, fr); ok {
+			ms = append(ms, multi{idx: i, ints: iv})
+		} else if sv, ok := se.strArgVals(a, fr); ok {
+			ms = append(ms, multi{idx: i, strs: sv})
+		}
+	}
+	if len(ms) == 0 || len(ms) > 2 {
+		return []string{se.applyFormat(format, args, ellipsis, fr)}
+	}
+	var out []string
+	var rec func(k int)
+	rec = func(k int) {
+		if k == len(ms) {
+			out = appendUniq(out, se.applyFormat(format, args, ellipsis, fr))
+			return
+		}
+		m := ms[k]
+		if se.pinInt == nil {
+			se.pinInt = map[ast.Expr]int64{}
+			se.pinStr = map[ast.Expr]string{}
+		}
+		key := unparen(args[m.idx])
+		for _, v := range m.ints {
+			se.pinInt[key] = v
+			rec(k + 1)
+		}
+		delete(se.pinInt, key)
+		for _, v := range m.strs {
+			se.pinStr[key] = v
+			rec(k + 1)
+		}
+		delete(se.pinStr, key)
+	}
+	rec(0)
+	return out
+}
+
+func appendUniq(out []string, vals ...string) []string {
+	for _, v := range vals {
+		dup := false
+		for _, o := range out {
+			if o == v {
+				dup = true
+			}
+		}
+		if !dup {
+			out = append(out, v)
+		}
+	}
+	return out
+}
+
+// tableRows: id is the value variable of `for _, id := range T` with T a read-only package-level table
+// (Program.ReadOnlyTable); returns the row expressions of T's literal.
+func (se *strEval) tableRows(id *ast.Ident) []ast.Expr {
+	rx := rangeSourceOf(se.info, id)
+	if rx == nil {
+		return nil
+	}
+	var lit *ast.CompositeLit
+	switch t := unparen(rx).(type) {
+	case *ast.CompositeLit:
+		lit = t // for _, m := range []int{a, b, c}
+	case *ast.Ident:
+		v, ok := se.info.ObjectOf(t).(*types.Var)
+		if !ok || v.Pkg() == nil || v.Parent() != v.Pkg().Scope() {
+			return nil
+		}
+		lit = se.p.ReadOnlyTable(v)
+	}
+	if lit == nil || len(lit.Elts) == 0 {
+		return nil
+	}
+	var rows []ast.Expr
+	for _, el := range lit.Elts {
+		if kv, ok := el.(*ast.KeyValueExpr); ok {
+			el = kv.Value
+		}
+		rows = append(rows, el)
+	}
+	return rows
+}
+
+// tableRowField: sel is row.f with row as in tableRows and the rows struct literals; returns f's value per row.
+func (se *strEval) tableRowField(sel *ast.SelectorExpr) []ast.Expr {
+	id, ok := unparen(sel.X).(*ast.Ident)
+	if !ok {
+		return nil
+	}
+	rows := se.tableRows(id)
+	if rows == nil {
+		return nil
+	}
+	t := se.info.TypeOf(id)
+	if p, ok := t.(*types.Pointer); ok {
+		t = p.Elem()
+	}
+	st, ok := t.Underlying().(*types.Struct)
+	if !ok {
+		return nil
+	}
+	fidx := -1
+	for i := 0; i < st.NumFields(); i++ {
+		if st.Field(i).Name() == sel.Sel.Name {
+			fidx = i
+		}
+	}
+	if fidx < 0 {
+		return nil
+	}
+	var out []ast.Expr
+	for _, r := range rows {
+		if u, ok := r.(*ast.UnaryExpr); ok && u.Op == token.AND {
+			r = u.X
+		}
+		cl, ok := r.(*ast.CompositeLit)
+		if !ok {
+			return nil
+		}
+		var fv ast.Expr
+		for i, el := range cl.Elts {
+			if kv, ok := el.(*ast.KeyValueExpr); ok {
+				if k, ok := kv.Key.(*ast.Ident); ok && k.Name == sel.Sel.Name {
+					fv = kv.Value
+				}
+			} else if i == fidx {
+				fv = el
+			}
+		}
+		if fv == nil {
+			return nil // field left at its zero value: not a template
+		}
+		out = append(out, fv)
+	}
+	return out
+}
+
+// intArgVals / strArgVals: the constant values an argument can take (several for a table row variable).
+func (se *strEval) intArgVals(a ast.Expr, fr *envFrame) ([]int64, bool) {
+	a = unparen(a)
+	if v, ok := se.constIntArg(a, fr); ok {
+		return []int64{v}, true
+	}
+	var rows []ast.Expr
+	switch t := a.(type) {
+	case *ast.Ident:
+		if fr != nil {
+			if arg, ok := fr.env[se.info.ObjectOf(t)]; ok {
+				return se.intArgVals(arg, fr.outer)
+			}
+		}
+		rows = se.tableRows(t)
+	case *ast.SelectorExpr:
+		rows = se.tableRowField(t)
+	}
+	if rows == nil {
+		return nil, false
+	}
+	var out []int64
+	for _, r := range rows {
+		v, ok := se.constIntArg(r, fr)
+		if !ok {
+			return nil, false
+		}
+		out = append(out, v)
+	}
+	return out, true
+}
+
+func (se *strEval) strArgVals(a ast.Expr, fr *envFrame) ([]string, bool) {
+	a = unparen(a)
+	if v, ok := se.constStrArg(a, fr); ok {
+		return []string{v}, true
+	}
+	var rows []ast.Expr
+	switch t := a.(type) {
+	case *ast.Ident:
+		if fr != nil {
+			if arg, ok := fr.env[se.info.ObjectOf(t)]; ok {
+				return se.strArgVals(arg, fr.outer)
+			}
+		}
+		rows = se.tableRows(t)
+	case *ast.SelectorExpr:
+		rows = se.tableRowField(t)
+	}
+	if rows == nil {
+		return nil, false
+	}
+	var out []string
+	for _, r := range rows {
+		v, ok := se.constStrArg(r, fr)
+		if !ok {
+			return nil, false
+		}
+		out = append(out, v)
+	}
+	return out, true
+}
+
 func (se *strEval) constIntArg(a ast.Expr, fr *envFrame) (int64, bool) {
 	a = unparen(a)
+	if v, ok := se.pinInt[a]; ok {
+		return v, true
+	}
 	if v, ok := constInt(se.info, a); ok {
 		if tv := se.info.Types[a]; tv.Type != nil {
 			if b, ok := tv.Type.Underlying().(*types.Basic); ok && b.Info()&types.IsInteger != 0 {
@@ -370,6 +643,9 @@ func (se *strEval) constIntArg(a ast.Expr, fr *envFrame) (int64, bool) {
 
 func (se *strEval) constStrArg(a ast.Expr, fr *envFrame) (string, bool) {
 	a = unparen(a)
+	if v, ok := se.pinStr[a]; ok {
+		return v, true
+	}
 	if s, ok := constString(se.info, a); ok {
 		return s, true
 	}
@@ -462,7 +738,13 @@ func canonPath(info *types.Info, e ast.Expr) string {
 					if id, ok := unparen(t.X).(*ast.Ident); ok && localAliasOf(info, id) != nil {
 						aliased = true
 					}
-					if _, isPtr := info.TypeOf(t.X).(*types.Pointer); (isPtr || isIdent(t.X)) && !aliased && (isIdent(t.X) || !isAmbiguousAnchor(info.TypeOf(t.X))) {
+					_, isPtr := info.TypeOf(t.X).(*types.Pointer)
+					if (isPtr || isIdent(t.X)) && !aliased && (isIdent(t.X) || !isAmbiguousAnchor(info.TypeOf(t.X))) {
+						return joinPath(name, fields)
+					}
+					// `vx := w.vx` (a copy of a pointer to an unambiguous anchor type): the path is anchored at the
+					// pointee's type exactly as if the source expression stood here
+					if aliased && isPtr && !isAmbiguousAnchor(info.TypeOf(t.X)) {
 						return joinPath(name, fields)
 					}
 				}
@@ -621,6 +903,10 @@ func exprKeys(info *types.Info, e ast.Expr, pol bool) []string {
 			if !pol {
 				return append(exprKeys(info, t.X, false), exprKeys(info, t.Y, false)...)
 			}
+			// x == a || x == b is the membership test a multi-value case list makes
+			if k := membershipKey(info, e); k != "" {
+				return []string{k}
+			}
 			return []string{"(" + canonExpr(info, e) + ")"}
 		case token.EQL, token.NEQ, token.LSS, token.LEQ, token.GTR, token.GEQ:
 			op := t.Op
@@ -633,6 +919,15 @@ func exprKeys(info *types.Info, e ast.Expr, pol bool) []string {
 				return exprKeys(info, t.X, (val == (t.Op == token.EQL)) == pol)
 			}
 			return []string{canonExpr(info, t.X) + op.String() + canonExpr(info, t.Y)}
+		}
+	}
+	// a boolean local defined once by a condition (`private := len(x) == 1 && x[0] == '?'`) stands for it
+	if id, ok := e.(*ast.Ident); ok {
+		if def := flagDefOf(info, id); def != nil && flagDepth < 4 {
+			flagDepth++
+			r := exprKeys(info, def, pol)
+			flagDepth--
+			return r
 		}
 	}
 	k := canonExpr(info, e)
@@ -700,10 +995,123 @@ func canonExpr(info *types.Info, e ast.Expr) string {
 			return types.ExprString(t.Fun) + "(" + strings.Join(args, ", ") + ")"
 		}
 		return types.ExprString(e)
-	case *ast.SelectorExpr, *ast.Ident, *ast.StarExpr, *ast.IndexExpr:
+	case *ast.Ident:
+		if def := flagDefOf(info, t); def != nil && flagDepth < 4 {
+			flagDepth++
+			r := canonExpr(info, def)
+			flagDepth--
+			if b, ok := unparen(def).(*ast.BinaryExpr); ok && (b.Op == token.LAND || b.Op == token.LOR) {
+				r = "(" + r + ")"
+			}
+			return r
+		}
+		return canonPath(info, e)
+	case *ast.SelectorExpr, *ast.StarExpr, *ast.IndexExpr:
 		return canonPath(info, e)
 	}
 	return types.ExprString(e)
+}
+
+var flagDepth int
+
+// flagDefOf: id is a boolean local assigned exactly once, by a condition (comparison, &&, ||, !) rather than
+// by a call or a copy; returns that condition. Such a flag variable is read as the condition it names.
+func flagDefOf(info *types.Info, id *ast.Ident) ast.Expr {
+	o := info.ObjectOf(id)
+	if o == nil || o.Type() == nil {
+		return nil
+	}
+	if bt, ok := o.Type().Underlying().(*types.Basic); !ok || bt.Info()&types.IsBoolean == 0 {
+		return nil
+	}
+	src := singleDefOf(info, o)
+	if src == nil {
+		return nil
+	}
+	// the condition must still mean the same where the flag is read: the local variables it mentions are
+	// themselves assigned at most once (parameters: never)
+	stable := true
+	ast.Inspect(src, func(n ast.Node) bool {
+		if x, ok := n.(*ast.Ident); ok {
+			if v, isVar := info.ObjectOf(x).(*types.Var); isVar && !v.IsField() && v.Pkg() != nil && v.Parent() != v.Pkg().Scope() {
+				if writeCountTables[info][v] > 1 {
+					stable = false
+				}
+			}
+		}
+		return true
+	})
+	if !stable {
+		return nil
+	}
+	switch t := unparen(src).(type) {
+	case *ast.BinaryExpr:
+		switch t.Op {
+		case token.LAND, token.LOR, token.EQL, token.NEQ, token.LSS, token.LEQ, token.GTR, token.GEQ:
+			return src
+		}
+	case *ast.UnaryExpr:
+		if t.Op == token.NOT {
+			return src
+		}
+	}
+	return nil
+}
+
+// membershipKey: e is a disjunction of equalities of one expression with constants (x == 1 || x == 2, flags and
+// parentheses seen through); returns "x∈{1,2}" in source order, "" otherwise.
+func membershipKey(info *types.Info, e ast.Expr) string {
+	var lhs string
+	var vals []string
+	ok := true
+	var walk func(x ast.Expr, depth int)
+	walk = func(x ast.Expr, depth int) {
+		x = unparen(x)
+		if !ok {
+			return
+		}
+		if id, isId := x.(*ast.Ident); isId && depth < 4 {
+			if def := flagDefOf(info, id); def != nil {
+				walk(def, depth+1)
+				return
+			}
+		}
+		b, isB := x.(*ast.BinaryExpr)
+		if !isB {
+			ok = false
+			return
+		}
+		switch b.Op {
+		case token.LOR:
+			walk(b.X, depth)
+			walk(b.Y, depth)
+		case token.EQL:
+			l, r := b.X, b.Y
+			if tv, isC := info.Types[l]; isC && tv.Value != nil {
+				l, r = r, l
+			}
+			tv, isC := info.Types[r]
+			if !isC || tv.Value == nil || tv.Value.Kind() == constant.Bool {
+				ok = false
+				return
+			}
+			cl := canonExpr(info, l)
+			if lhs == "" {
+				lhs = cl
+			} else if lhs != cl {
+				ok = false
+				return
+			}
+			vals = append(vals, canonExpr(info, r))
+		default:
+			ok = false
+		}
+	}
+	walk(e, 0)
+	if !ok || len(vals) < 2 {
+		return ""
+	}
+	return lhs + "∈{" + strings.Join(vals, ",") + "}"
 }
 
 // accessorResolver is set by main once the program is loaded; it maps a call of a
@@ -761,9 +1169,11 @@ func ExtractEmissions(p *Program, fis []*FuncInfo, isSink SinkFn) []*Emission {
 				vals, okv := se.eval(call.Args[arg], nil)
 				if okv {
 					if isFmt {
-						for i, v := range vals {
-							vals[i] = se.applyFormat(v, call.Args[arg+1:], call.Ellipsis.IsValid(), nil)
+						var all []string
+						for _, v := range vals {
+							all = append(all, se.applyFormatAll(v, call.Args[arg+1:], call.Ellipsis.IsValid(), nil)...)
 						}
+						vals = all
 					}
 					em.Templates, em.Resolved = vals, true
 				} else {
@@ -955,6 +1365,12 @@ func buildAliasTable(info *types.Info, files []*ast.File) {
 		} else {
 			anyDefs[o] = append(anyDefs[o], r)
 		}
+		// `p := &a.b.c` makes p.x the same storage as a.b.c.x: the alias stands for the pointee path
+		if r != nil {
+			if u, ok := unparen(r).(*ast.UnaryExpr); ok && u.Op == token.AND && isAccessPath(info, u.X) {
+				r = u.X
+			}
+		}
 		if r == nil || !isAccessPath(info, r) {
 			bad[o] = true
 			return
@@ -1040,7 +1456,11 @@ func buildAliasTable(info *types.Info, files []*ast.File) {
 		}
 	}
 	tupleDefTables[info] = td
+	writeCountTables[info] = writes
 }
+
+// writeCountTables: per package, how many statements assign each identifier-named variable.
+var writeCountTables = map[*types.Info]map[types.Object]int{}
 
 type tupleDef struct {
 	call *ast.CallExpr
